@@ -271,6 +271,15 @@ def witnesses():
     P.op("evaluate", t, {"A": esc})
     witness("C03", "F22", P, "Template('{:p:}', p=Option('A')) with A='\\{B\\}': keys() is {'A'} but evaluation on the restriction to it fails (B is read)",
             [ok(0, value={"$": "set", "v": ["A"]}), ok(1, value="1"), err(2, raises="KeyNotFoundError")])
+    # F31 / C01
+    P = Prog()
+    c = P.cached(P.coalesce([P.option("K", dflt=P.value("auto"), dom=P.value(["fast", "exact"])), P.option("K2")]))
+    P.evaluate(c, {"K2": "fast"})
+    P.evaluate(c, {"K2": "exact"})
+    P.evaluate(c, {"K2": "exact"}, cache_off=True)
+    witness("C01", "F31", P, "cached coalesce(Option('K', 'auto', domain=['fast', 'exact']), Option('K2')): the first member validates (its default is "
+            "not checked against its domain) so keys() is empty, evaluation rejects the default and reads K2: stale hit after K2 changed",
+            [ok(0, value="fast"), ok(1, value="fast"), ok(2, value="exact")])
     # F26 / C01, C10
     o = sort_json({"N": 7, "PATTERN": "part-{:n:}.csv"})
     P = Prog()
